@@ -85,3 +85,18 @@ def live_in_phase(inp, ph):
     if st.startswith("inact"):
         return ph == "a"
     return True
+
+
+def apply_remux(s, spec):
+    """after an analysis: delete the mux (with its subtree) and re-add it with its inputs in REVERSED priority order; returns the new spec."""
+    from .sysmodel import make_comp
+    sub = ["M"] + [c["n"] for c in spec["comps"] if c["n"] in ("LM", "RB", "PB", "CB", "OB")]
+    s.del_comp("M")
+    spec = copy.deepcopy(spec)
+    for c in spec["comps"]:
+        if c["n"] == "M":
+            c["p"] = list(reversed(c["p"]))
+    for c in spec["comps"]:
+        if c["n"] in sub:
+            s.add_comp(c["p"] if c["n"] == "M" else c["p"][0], comp=make_comp(c))
+    return spec
